@@ -161,8 +161,8 @@ def us(t):
     return (t - dt.datetime(1, 1, 1)) // dt.timedelta(microseconds=1)
 
 
-def gen_fileset_times(rng, origin, n, whole=False):
-    res = rng.choice([1000, 1_000_000, 60_000_000])          # µs granularity (ms, s, min)
+def gen_fileset_times(rng, origin, n, whole=False, res=None):
+    res = res or rng.choice([1000, 1_000_000, 60_000_000])          # µs granularity (ms, s, min)
     out = []
     t = 0
     for _ in range(n):
@@ -177,10 +177,16 @@ def gen_fileset_times(rng, origin, n, whole=False):
 def match_case(ck, rng, scratch, use_model=True):
     from typhon.files import FileSet
     origin = dt.datetime(2015, 1, 1) + dt.timedelta(days=rng.randint(0, 2000), hours=rng.randint(0, 23))
-    t1 = gen_fileset_times(rng, origin, rng.randint(1, 12), whole=rng.random() < 0.15)
+    long_scale = rng.random() < 0.35        # files hours/days apart, max_interval of a day or more
+    res = rng.choice([3_600_000_000, 6 * 3_600_000_000]) if long_scale else None
+    t1 = gen_fileset_times(rng, origin, rng.randint(1, 12), whole=rng.random() < 0.15, res=res)
     t2 = gen_fileset_times(rng, origin + dt.timedelta(microseconds=rng.randint(-50, 50) * 1000),
-                           rng.randint(1, 12), whole=rng.random() < 0.2)
-    mi_us = rng.choice([None, 0, 1000, 1_500_000, 1_000_000, 60_000_000, 3_600_000_000])
+                           rng.randint(1, 12), whole=rng.random() < 0.2, res=res)
+    if long_scale:
+        mi_us = rng.choice([0, 3_600_000_000, 86_400_000_000, 86_400_000_000 + 5_000_000, 2 * 86_400_000_000 + 1500,
+                            7 * 86_400_000_000, None])
+    else:
+        mi_us = rng.choice([None, 0, 1000, 1_500_000, 1_000_000, 60_000_000, 3_600_000_000, 86_400_000_000])
     d = tempfile.mkdtemp(dir=scratch)
     try:
         dirs = []
@@ -194,7 +200,7 @@ def match_case(ck, rng, scratch, use_model=True):
         a, b = dirs
         lo = min(t1[0][0], t2[0][0]) - dt.timedelta(hours=2)
         hi = max(t1[-1][1], t2[-1][1]) + dt.timedelta(hours=2)
-        if rng.random() < 0.5:   # period cutting through the data
+        if rng.random() < 0.5 and not long_scale:   # period cutting through the data
             lo = origin + dt.timedelta(microseconds=rng.randint(0, 200) * 1_000_000)
             hi = lo + dt.timedelta(microseconds=rng.randint(1, 400) * 1_000_000)
         mi = None if mi_us is None else dt.timedelta(microseconds=mi_us)
@@ -220,7 +226,7 @@ def match_case(ck, rng, scratch, use_model=True):
                 want.append((p.path, [s.path for s in partners]))
         gotc = [(p.path, [s.path for s in ss]) for p, ss in got]
         npairs = sum(len(x[1]) for x in want)
-        ck.case(key=json.dumps(case) if npairs > 1 else None, kind="match/" + ("mi" if mi_us else "nomi"),
+        ck.case(key=json.dumps(case) if npairs > 1 else None, kind="match/" + ("long/" if long_scale else "") + ("mi>=1d" if (mi_us or 0) >= 86_400_000_000 else "mi" if mi_us else "nomi"),
                 sample={"t1": case["t1"][:4], "t2": case["t2"][:4], "mi": mi_us, "pairs": npairs})
         if gotc != want:
             ck.violation(classify(case), f"match yielded {[(os.path.basename(p), [os.path.basename(s) for s in ss]) for p, ss in gotc][:4]} "
